@@ -1,0 +1,48 @@
+//go:build verif
+
+// Contracts for package client, checked by /verif/govc. Comment-only.
+package client
+
+//@ ghost func secs(n int) int64 { return int64(n) * 1000000000 }
+//@ ghost func encKnown(s string) bool {
+//@     return lower(s) == "plain" || lower(s) == "aes-gcm" || lower(s) == "aes-256-gcm" || lower(s) == "aes-128-gcm" || lower(s) == "chacha20-poly1305"
+//@ }
+
+// README.md "Client" section, transcribed. Durations are nanoseconds (time.Second = 1e9).
+//@ func (*RawConfig).ProcessRawConfig
+//@   requires raw != nil
+//@   # option values are seconds; the README promises N seconds for N that fit a time.Duration
+//@   requires fits: raw.KeepAlive <= 9000000000 && -9000000000 <= raw.StreamTimeout && raw.StreamTimeout <= 9000000000
+//@   ensures rejectEmpty: (old(raw.ServerName) == "" || old(raw.ProxyMethod) == "" || len(old(raw.UID)) == 0 || len(old(raw.PublicKey)) != 32 || old(raw.RemoteHost) == "" || old(raw.RemotePort) == "" || old(raw.LocalHost) == "" || old(raw.LocalPort) == "" || !encKnown(old(raw.EncryptionMethod))) ==> err != nil
+//@   ensures acceptComplete: !(old(raw.ServerName) == "" || old(raw.ProxyMethod) == "" || len(old(raw.UID)) == 0 || len(old(raw.PublicKey)) != 32 || old(raw.RemoteHost) == "" || old(raw.RemotePort) == "" || old(raw.LocalHost) == "" || old(raw.LocalPort) == "" || !encKnown(old(raw.EncryptionMethod))) ==> err == nil
+//@   ensures numconnSingle: err == nil && old(raw.NumConn) <= 0 ==> remote.Singleplex && remote.NumConn == 1
+//@   ensures numconnMulti: err == nil && old(raw.NumConn) > 0 ==> !remote.Singleplex && remote.NumConn == old(raw.NumConn)
+//@   ensures keepaliveOff: err == nil && old(raw.KeepAlive) <= 0 ==> remote.KeepAlive < 0
+//@   ensures keepaliveOn: err == nil && old(raw.KeepAlive) > 0 ==> int64(remote.KeepAlive) == secs(old(raw.KeepAlive))
+//@   ensures timeoutDefault: err == nil && old(raw.StreamTimeout) == 0 ==> int64(local.Timeout) == secs(300)
+//@   ensures timeoutSet: err == nil && old(raw.StreamTimeout) != 0 ==> int64(local.Timeout) == secs(old(raw.StreamTimeout))
+//@   ensures udp: err == nil ==> auth.Unordered == old(raw.UDP)
+//@   ensures identity: err == nil ==> sameSlice(auth.UID, old(raw.UID)) && auth.ProxyMethod == old(raw.ProxyMethod) && auth.MockDomain == old(raw.ServerName)
+//@   ensures serverKey: err == nil ==> typeIs[*[32]byte](auth.ServerPubKey) && (forall i int :: 0 <= i && i < 32 ==> (*(auth.ServerPubKey.(*[32]byte)))[i] == old(raw.PublicKey)[i])
+//@   ensures encPlain: err == nil && lower(old(raw.EncryptionMethod)) == "plain" ==> auth.EncryptionMethod == 0
+//@   ensures encAes256: err == nil && (lower(old(raw.EncryptionMethod)) == "aes-gcm" || lower(old(raw.EncryptionMethod)) == "aes-256-gcm") ==> auth.EncryptionMethod == 1
+//@   ensures encChacha: err == nil && lower(old(raw.EncryptionMethod)) == "chacha20-poly1305" ==> auth.EncryptionMethod == 2
+//@   ensures encAes128: err == nil && lower(old(raw.EncryptionMethod)) == "aes-128-gcm" ==> auth.EncryptionMethod == 3
+//@   ensures remoteAddr: err == nil ==> remote.RemoteAddr == joinHostPort(old(raw.RemoteHost), old(raw.RemotePort))
+//@   ensures localAddr: err == nil ==> local.LocalAddr == joinHostPort(old(raw.LocalHost), old(raw.LocalPort))
+//@   ensures cdnMode: err == nil && lower(old(raw.Transport)) == "cdn" ==> remote.Transport.mode == "cdn"
+//@   ensures cdnUrlOrigin: err == nil && lower(old(raw.Transport)) == "cdn" && old(raw.CDNOriginHost) != "" && old(raw.CDNWsUrlPath) != "" ==> remote.Transport.wsUrl == "ws://" + joinHostPort(old(raw.CDNOriginHost), old(raw.RemotePort)) + old(raw.CDNWsUrlPath)
+//@   ensures cdnUrlDefaultHost: err == nil && lower(old(raw.Transport)) == "cdn" && old(raw.CDNOriginHost) == "" && old(raw.CDNWsUrlPath) != "" ==> remote.Transport.wsUrl == "ws://" + joinHostPort(old(raw.RemoteHost), old(raw.RemotePort)) + old(raw.CDNWsUrlPath)
+//@   ensures cdnUrlDefaultPath: err == nil && lower(old(raw.Transport)) == "cdn" && old(raw.CDNOriginHost) != "" && old(raw.CDNWsUrlPath) == "" ==> remote.Transport.wsUrl == "ws://" + joinHostPort(old(raw.CDNOriginHost), old(raw.RemotePort)) + "/"
+//@   ensures directMode: err == nil && lower(old(raw.Transport)) != "cdn" ==> remote.Transport.mode == "direct"
+//@   ensures browserFirefox: err == nil && lower(old(raw.Transport)) != "cdn" && lower(old(raw.BrowserSig)) == "firefox" ==> remote.Transport.browser == firefox
+//@   ensures browserSafari: err == nil && lower(old(raw.Transport)) != "cdn" && lower(old(raw.BrowserSig)) == "safari" ==> remote.Transport.browser == safari
+//@   ensures browserChrome: err == nil && lower(old(raw.Transport)) != "cdn" && lower(old(raw.BrowserSig)) != "safari" && lower(old(raw.BrowserSig)) != "firefox" ==> remote.Transport.browser == chrome
+//@   ensures namesLast: err == nil ==> len(local.MockDomainList) >= 1 && local.MockDomainList[len(local.MockDomainList)-1] == old(raw.ServerName)
+//@   ensures namesNonEmpty: err == nil ==> (forall i int :: 0 <= i && i < len(local.MockDomainList) ==> local.MockDomainList[i] != "")
+//@   modifies raw.AlternativeNames, raw.CDNWsUrlPath
+//@   loop 0 invariant idx: rangeindex >= -1 && rangeindex < len(old(raw.AlternativeNames))
+//@   loop 0 invariant freshArr: filteredAlternativeNames == nil || fresh(filteredAlternativeNames)
+//@   loop 0 invariant lenBound: len(filteredAlternativeNames) <= rangeindex + 1
+//@   loop 0 invariant nonEmpty: forall i int :: 0 <= i && i < len(filteredAlternativeNames) ==> filteredAlternativeNames[i] != ""
+//@   loop 0 invariant stable: sameSlice(raw.AlternativeNames, old(raw.AlternativeNames)) && raw.ServerName == old(raw.ServerName)
